@@ -11,14 +11,14 @@ type T struct {
 	op   string
 	args []*T
 	sort string
-	def  *T // for named atoms: the definition (used for folding only)
+	def  *T       // for named atoms: the definition (used for folding only)
 	bit  *bitMeta // int mode: this value is 1<<n or ^(1<<n) for the recorded n
 }
 
 // bitMeta records that an int-mode term is a single-bit pattern
 type bitMeta struct {
-	n   *T  // bit index (Int term)
-	w   int // width of the value
+	n   *T   // bit index (Int term)
+	w   int  // width of the value
 	neg bool // the complement ^(1<<n)
 	shr *T   // non-nil: the value is shr>>n (logical shift of an unsigned value)
 }
@@ -353,8 +353,8 @@ func mkStore(a, i, v *T) *T {
 // ---- declarations registry ----------------------------------------------
 
 type decls struct {
-	sorts     []string          // uninterpreted sorts
-	datatypes []*datatype       // in dependency order
+	sorts     []string    // uninterpreted sorts
+	datatypes []*datatype // in dependency order
 	dtByName  map[string]*datatype
 	funs      map[string]string // name -> "(declare-fun ...)" text
 	funOrder  []string
